@@ -132,6 +132,22 @@ func (a *w3Analysis) queriesVsDisk(files []*w3File, written map[int64]*w3Written
 			}
 		}
 	}
+	// ---- what a player does: fetch every listed span exactly as listed; then windows that start
+	// exactly at a segment boundary
+	for _, e := range entries {
+		if simrt.Aborted() || len(a.violations) > 2 {
+			return
+		}
+		a.getWindow(root, chains, e.Start, time.Duration(e.Duration*float64(time.Second)))
+	}
+	for _, c := range chains {
+		for _, s := range c.segStarts {
+			if simrt.Aborted() || len(a.violations) > 2 {
+				return
+			}
+			a.getWindow(root, chains, s, 700*time.Millisecond)
+		}
+	}
 	base := chains[0].start
 	for _, w := range a.h.b.Windows {
 		if simrt.Aborted() || len(a.violations) > 2 {
